@@ -3,7 +3,7 @@ from __future__ import annotations
 
 from typing import Any, Dict, List, Optional, Tuple
 
-from ..kit import Ctx, alloc_literal, calls, kw, loops, normal_paths, poly_of, rule, short, stores
+from ..kit import path_text, iter_source, Ctx, alloc_literal, calls, kw, loops, normal_paths, poly_of, rule, short, stores
 from ..paths import Event, Path
 from ..terms import NONE, Term, key, strip_ver, subterms
 from .events import declared_hooks, is_effect, occurrence_market_keys, target_guard
@@ -107,7 +107,7 @@ def r2(ctx: Ctx) -> None:
         en = [pol for c, pol, _ in h.path.conds if key(strip_ver(c)) == "self.is_enabled"]
         lit = alloc_literal(h.path, h.time) if h.time is not None else None
         ok = h.hook_type == "order" and h.is_before is True and en == [True] and lit is not None and [key(strip_ver(x)) for x in lit[1]] == ["self.trigger_time"]
-        ctx.check(ok, g, h.event.node, f"{OMS}: order-before hook at exactly the trigger time, only when enabled", "EventHook(self, 'order', True, time=[self.trigger_time]) under is_enabled", f"type={h.hook_type} before={h.is_before} time={short(lit)} enabled-cond={en}")
+        ctx.check(ok, g, h.event.node, f"{OMS}: order-before hook at exactly the trigger time, only when enabled", "EventHook(self, 'order', True, time=[self.trigger_time]) under is_enabled", f"type={h.hook_type} before={h.is_before} time={short(lit) if lit is not None else short(h.time)} enabled-cond={en}", guard="text")
     for p in disabled:
         lit = alloc_literal(p, p.exit[1])
         ctx.check(lit is not None and len(lit[1]) == 0, g, g.node, f"{OMS}: no hook when disabled", "return []", short(lit))
@@ -126,7 +126,7 @@ def r2(ctx: Ctx) -> None:
             neff += 1
             got = {e.attr: strip_ver(e.value) for e in order_sts}
             rate = ("attr", ("sym", "self"), "price_change_rate")
-            okf = set(got) == {"is_buy", "kind", "volume", "price", "ttl"}
+            okf = set(got) >= {"is_buy", "kind", "volume", "price", "ttl"}  # further fields: C14.R4 says which must be there
             okf = okf and got.get("is_buy") in (("cmp", ">", rate, ("const", 0.0)), ("cmp", ">", rate, ("const", 0)), ("cmp", "<", ("const", 0.0), rate), ("cmp", "<", ("const", 0), rate))
             okf = okf and key(got.get("kind", NONE)).endswith("LIMIT_ORDER") and key(got.get("volume", NONE)) == "self.order_volume" and key(got.get("ttl", NONE)) == "self.order_time_length"
             pr = got.get("price", NONE)
@@ -143,14 +143,15 @@ def r2(ctx: Ctx) -> None:
                 ctx.unrec(f, f.node, f"{OMS}: overridden fields", "the market price is read from something that stands in for the recorded series (not the series itself)", key(pr)[:120])
                 continue
             ctx.check(okf and okp, f, f.node, f"{OMS}: overridden fields", "is_buy = rate > 0; kind = LIMIT_ORDER; volume = order_volume; ttl = order_time_length; price = <order's market>.get_market_price() * (1 + rate)",
-                      ", ".join(f"{k}={key(v)[:70]}" for k, v in sorted(got.items())))
+                      ", ".join(f"{k}={key(v)[:70]}" for k, v in sorted(got.items())), guard="text")
             # once-flag: tested false before, set true on this path, nothing else on self
             fl = [e for e in self_sts if e.value == ("const", True)]
             tested = [key(strip_ver(c)) for c, pol, _ in p.conds if not pol and strip_ver(c)[0] == "attr" and strip_ver(c)[1] == ("sym", "self")]
             ok = len(fl) == 1 and fl[0].attr is not None and f"self.{fl[0].attr}" in tested
             if ok:
                 flag = fl[0].attr
-            ctx.check(ok, f, f.node, f"{OMS}: the replacement happens only while the once-flag is unset and sets it", "if not self.<flag>: ...; self.<flag> = True", f"flag stores={[short(e.target) for e in fl]} tested-false={tested}")
+            ctx.check(ok, f, f.node, f"{OMS}: the replacement happens only while the once-flag is unset and sets it", "if not self.<flag>: ...; self.<flag> = True", f"flag stores={[short(e.target) for e in fl]} tested-false={tested} on {p.describe()[:240]}", guard="text",
+                      guard_text=" ".join(short(c) for c, _, _ in p.conds if not any(t_ in short(c) for t_ in tested) and not any(short(e.target) in short(c) for e in fl)))
             # target discipline is C14.R3
         else:
             # no replacement on this path -> the flag must not be consumed
@@ -194,7 +195,7 @@ def check_target_discipline(ctx: Ctx, classes: List[str]) -> None:
                 mh = [h for h in hooks if h.hook_type == "market" and h.is_before == m.name.startswith("hooked_before")]
                 for h in mh:
                     inst = strip_ver(h.specific_instance) if h.specific_instance is not None else NONE
-                    ok = key(inst).startswith("self.target_market") or (h.in_loop is not None and inst[0] in ("sym", "bound") and key(strip_ver(h.in_loop.iter)).startswith("self.target_markets"))
+                    ok = key(inst).startswith("self.target_market") or (h.in_loop is not None and inst[0] in ("sym", "bound") and key(iter_source(h.in_loop.iter)).startswith("self.target_markets"))
                     n += 1
                     ctx.check(ok, m, h.event.node, f"{cname}: market-step hook is registered for a target instance", "specific_instance = target market", short(inst))
                 if mh:
@@ -210,7 +211,7 @@ def check_target_discipline(ctx: Ctx, classes: List[str]) -> None:
                     conds = outer_conds + [(c, pol) for c, pol, _ in path.conds]
                     ok = any(target_guard(c, pol, mk, elems) for c, pol in conds)
                     ctx.check(ok, m, effs[0].node, f"{cname}.{m.name}: effects happen only for a target market", "a decision `occurrence's market is (in) self.target_market(s)` taken true before the first effect",
-                              "guarded" if ok else f"{len(effs)} effect(s), first: {repr(effs[0])[:80]}; decisions: {[('' if pol else 'not ') + key(strip_ver(c))[:60] for c, pol in conds][:4]}")
+                              "guarded" if ok else f"{len(effs)} effect(s), first: {repr(effs[0])[:80]}; decisions: {[('' if pol else 'not ') + key(strip_ver(c))[:60] for c, pol in conds][:4]}", guard="text", guard_text=repr(effs[0])[:200])
     ctx.require(n >= 4, "target-filter discipline: fewer handlers with effects than confirmed by reading")
 
 
